@@ -7,6 +7,7 @@ need_save, what a fresh start-up would load; compared with the model (driver SCH
 directly by the oracle."""
 import asyncio
 import os
+import shutil
 import random
 import tempfile
 import types
@@ -110,13 +111,21 @@ class Mutator:
 class Scenario:
     """One schedule on the real code; both flavours share the observation code."""
 
-    def __init__(self, work, fmt, flavour, disk, plan, idx):
-        self.fmt, self.flavour, self.disk, self.plan = fmt, flavour, disk, plan
+    def __init__(self, work, fmt, flavour, disk, plan, idx, alias=False):
+        self.fmt, self.flavour, self.disk, self.plan, self.alias = fmt, flavour, disk, plan, alias
         self.dir = os.path.join(work, f"s{idx}")
         self.load_dir = os.path.join(work, f"l{idx}")
         os.makedirs(self.dir)
         os.makedirs(self.load_dir)
         self.main = os.path.join(self.dir, f"state.{fmt}")
+        # the path the user configures: the file itself, or a symbolic link to it that lives elsewhere
+        self.conf = self.main
+        self.alias_dir = None
+        if alias:
+            self.alias_dir = os.path.join(work, f"a{idx}")
+            os.makedirs(self.alias_dir)
+            self.conf = os.path.join(self.alias_dir, f"state.{fmt}")
+            os.symlink(os.path.join("..", f"s{idx}", f"state.{fmt}"), self.conf)
         self.obs = []          # per event: dict
         self.model_events = []
         self.versions = []     # projection of the network after every change
@@ -135,10 +144,14 @@ class Scenario:
         self.versions = [pu.project(s0)]
 
     def loadable(self):
-        for p in (self.main, self.main + ".bak", pu.tmp_name(self.main)):
-            name = os.path.basename(p)
-            pu.put(os.path.join(self.load_dir, name), pu.get(p))
-        exc, sensors = pu.fresh_load(os.path.join(self.load_dir, os.path.basename(self.main)))
+        """what a start-up would load now: a fresh load on a copy of the directories (links kept as links)"""
+        pu.rmtree(self.load_dir)
+        os.makedirs(self.load_dir)
+        for d in (self.dir, self.alias_dir):
+            if d is not None:
+                shutil.copytree(d, os.path.join(self.load_dir, os.path.basename(d)), symlinks=True)
+        conf = os.path.join(self.load_dir, os.path.basename(os.path.dirname(self.conf)), os.path.basename(self.conf))
+        exc, sensors = pu.fresh_load(conf)
         return exc, sensors
 
     def shim_for(self, fault):
@@ -175,7 +188,7 @@ class Scenario:
     def run_sync(self, work):
         self.prepare_disk(work)
         with pu.fake_timers() as FT:
-            gw = pu.make_gateway("2.2", persistence_file=self.main, flavour="sync")
+            gw = pu.make_gateway("2.2", persistence_file=self.conf, flavour="sync")
             for pos, fault in enumerate(self.plan):
                 if pos > 0:
                     self.apply_msg(gw)
@@ -241,7 +254,7 @@ class Scenario:
 
         async def main():
             sc.sleeping, sc.gate, sc.clock = asyncio.Event(), asyncio.Event(), 0.0
-            gw = pu.make_gateway("2.2", persistence_file=sc.main, flavour="async")
+            gw = pu.make_gateway("2.2", persistence_file=sc.conf, flavour="async")
             for pos, fault in enumerate(sc.plan):
                 if pos > 0:
                     sc.apply_msg(gw)
@@ -402,7 +415,7 @@ def oracle(sc, res):
 
 
 def replay_of(sc):
-    return {"fmt": sc.fmt, "flavour": sc.flavour, "disk": sc.disk, "plan": [list(f) for f in sc.plan]}
+    return {"fmt": sc.fmt, "flavour": sc.flavour, "disk": sc.disk, "plan": [list(f) for f in sc.plan], "alias": sc.alias}
 
 
 def plans(rng, tier):
@@ -424,14 +437,16 @@ def plans(rng, tier):
     return out
 
 
-def run_scenario(work, fmt, flavour, disk, plan, idx):
-    sc = Scenario(work, fmt, flavour, disk, plan, idx)
+def run_scenario(work, fmt, flavour, disk, plan, idx, alias=False):
+    sc = Scenario(work, fmt, flavour, disk, plan, idx, alias)
     if flavour == "sync":
         sc.run_sync(work)
     else:
         sc.run_async(work)
     pu.rmtree(sc.dir)
     pu.rmtree(sc.load_dir)
+    if sc.alias_dir:
+        pu.rmtree(sc.alias_dir)
     return sc
 
 
@@ -448,10 +463,13 @@ def run(tier, seed, driver):
                 for pi, plan in enumerate(allplans):
                     disk = "good" if (pi + (fmt == "json")) % 2 == 0 or tier == "thorough" else "none"
                     disks = ["good", "none"] if tier == "thorough" else [disk]
-                    for dk in disks:
+                    runs = [(dk, False) for dk in disks]
+                    if len(plan) == 4 and any(f[0] == "io" and f[1].startswith(("ren", "rm")) for f in plan):
+                        runs.append(("good", True))      # the configured path is a symbolic link to the file
+                    for dk, alias in runs:
                         idx += 1
                         try:
-                            sc = run_scenario(work, fmt, flavour, dk, plan, idx)
+                            sc = run_scenario(work, fmt, flavour, dk, plan, idx, alias)
                         except Exception as exc:  # noqa: BLE001
                             res.oracle_failures.append({
                                 "key": {"kind": "scenario-raised", "flavour": flavour, "exc": type(exc).__name__},
@@ -506,7 +524,7 @@ def replay(payload):
     work = tempfile.mkdtemp(prefix="verif-c15-")
     res = Result()
     try:
-        sc = run_scenario(work, r["fmt"], r["flavour"], r["disk"], [tuple(f) for f in r["plan"]], 1)
+        sc = run_scenario(work, r["fmt"], r["flavour"], r["disk"], [tuple(f) for f in r["plan"]], 1, bool(r.get("alias")))
     finally:
         pu.rmtree(work)
     oracle(sc, res)
